@@ -260,6 +260,21 @@ func (c *Ctx) finishPart(p *Part, st *explore.Stats, name string, t0 time.Time) 
 	}
 }
 
+// DFSBoth explores a scenario twice: with sleep-set reduction at the deep bound b, and without any
+// reduction at a shallow preemption bound. The reduction treats transitions on different
+// synchronisation objects as commuting, which presumes that plain memory is data-race free; a
+// change that shares state through an unsynchronised variable breaks exactly that assumption, and
+// the plain pass (every interleaving of scheduling points within its bound) is what catches it.
+func (c *Ctx) DFSBoth(name string, b explore.Bounds, plainP int) {
+	b.POR = true
+	c.DFS(name, b)
+	capN := 1500
+	if !c.Quick() {
+		capN = 60000
+	}
+	c.DFS(name, explore.Bounds{Preempt: plainP, Dev: 0, MaxExec: capN})
+}
+
 type workReq struct {
 	Scenario string           `json:"scenario"`
 	Prefix   []int            `json:"prefix"`
